@@ -4,6 +4,7 @@ Correspondence (exhaustive): real dali.address vs the Lean model (m_cmd), and
 oracle: real code vs the standard's partition tables (Spec.partition /
 Spec.instOfByte) and the write-locality / read-back statement evaluated
 directly on real Frame objects."""
+from common import exc_name  # noqa: E402
 from props import cmdcommon as cc
 
 ID = "C04"
@@ -333,7 +334,7 @@ def outcome_cls(fn):
     try:
         return "ok", fn()
     except Exception as e:  # noqa
-        return "err", type(e).__name__
+        return "err", exc_name(e)
 
 
 def replay(ctx, payload):
